@@ -44,6 +44,22 @@ TECH = ("bounded model checking of the compiled Rust code: Kani 0.68 proof harne
         "natively via Kani concrete playback")
 
 PROPS = {
+    "C03": dict(
+        design_ref="DESIGN.md 5.3",
+        level_text="Mp4Track's lookup code (sample_offset, sample_size, sample_time, rendering offset, sync, read_sample, sample_count) is "
+                   "executed symbolically on a track built directly from tables, once per table *shape* (every composition of N samples into "
+                   "chunks under maximal / per-chunk / all run-length groupings; 0..4 stts/ctts runs; 0..8 stss entries); within a shape every "
+                   "offset, size, delta, composition offset, sync entry and the sample id k (whole u32 range) is symbolic, and the result is "
+                   "compared with a reference formula written from 14496-12 8.6/8.7. Off-by-one errors at run boundaries fail for some k in every shape.",
+        level_note="Per track; bounded by N<=4 (quick) / N<=6 (thorough) samples for the chunk map, stts/ctts run lengths 0..3 (0..65535 thorough), "
+                   "read_sample byte comparison on samples <= 2 bytes in a 16-byte stream. Trusted: Kani/CBMC/CaDiCaL, the reference formulas in kani/src/c03.rs + common/model.rs. " + GLUE,
+        bounds="chunk map: all compositions of N<=4 (quick) / N<=6 (thorough) samples into chunks, groupings max+own (quick) / all (thorough, N<=5); "
+               "offsets < 2^62 (u32 for stco), sizes full u32 (>0 in constant mode), k: all u32; stts/ctts: 0..3 runs (4 thorough) with run lengths 0..3 "
+               "(0..65535 thorough) and full-range deltas / i32 offsets; stss: 0..4 (8 thorough) strictly increasing entries; read_sample: sizes <= 2, offsets < 8",
+        outside="tables longer than the bounds; dispatch through Mp4Reader's track map (several tracks); stsc first_sample derivation is decided in C04/C05's stsc harness",
+        assumptions=COMMON_ASSUME + ["tables are mutually consistent by construction (the property's precondition)",
+                                     "chunk offsets < 2^62 (a consistent file keeps chunks inside the file)"],
+    ),
     "C16": dict(
         design_ref="DESIGN.md 5.16",
         level_text="Each mapping is decided by one or two SAT queries whose single symbolic input ranges over the "
